@@ -543,6 +543,24 @@ fn field_corruptions(seed: u64) -> Vec<(String, Vec<u8>)> {
     for c in [0u64, n - 1, n + 1, 1 << 32, 1 << 63, u64::MAX] {
         out.push((format!("sig.blocks.len={c}"), put64(&se, 16, c)));
     }
+    // every per-block field of every block: index (u32), weak hash (u32), strong hash (32 bytes)
+    let per_block = (se.len() - 24) / sig.blocks.len().max(1);
+    if per_block != 40 || u32::from_le_bytes(se[24..28].try_into().unwrap_or([9; 4])) != 0 || (sig.blocks.len() > 1 && u32::from_le_bytes(se[64..68].try_into().unwrap_or([9; 4])) != 1) {
+        machinery_error("signature bincode layout is not 40 bytes per block starting with the u32 block index");
+    }
+    for k in 0..sig.blocks.len() {
+        let o = 24 + 40 * k;
+        for idx in [n as u32, n as u32 + 1, 0x7FFF_FFFF, u32::MAX, ((k as u64 + 1) % n) as u32] {
+            let mut x = se.clone();
+            x[o..o + 4].copy_from_slice(&idx.to_le_bytes());
+            out.push((format!("sig.block[{k}].index={idx}"), x));
+        }
+        for (what, off) in [("weak", o + 4), ("weak", o + 7), ("strong", o + 8), ("strong", o + 39)] {
+            let mut x = se.clone();
+            x[off] ^= 0x81;
+            out.push((format!("sig.block[{k}].{what}@{off}^=0x81"), x));
+        }
+    }
     for fs in [0u64, 1, u64::MAX] {
         out.push((format!("sig.file_size={fs}"), put64(&se, 8, fs)));
     }
